@@ -430,6 +430,7 @@ type failFile struct {
 	Signature string          `json:"signature"`
 	Violation violation       `json:"violation"`
 	Plan      json.RawMessage `json:"plan"`
+	Crash     bool            `json:"crash,omitempty"`
 }
 
 type workerStats struct {
@@ -530,6 +531,15 @@ func runWorker(sc *scratch, prop, tier, variant string, idx int, seed uint64, bu
 			res.fail = &ff
 		}
 	}
+	// the process died while serving an event: the harness left a witness behind
+	if res.fail == nil && res.stats == nil && !res.timedOut {
+		if b, err := os.ReadFile(failp + ".pending"); err == nil {
+			var ff failFile
+			if json.Unmarshal(b, &ff) == nil && ff.Crash {
+				res.fail = &ff
+			}
+		}
+	}
 	return res
 }
 
@@ -550,7 +560,11 @@ func replayOnce(sc *scratch, prop, variant, path string, extraEnv []string) (str
 	if sb, e := os.ReadFile(out); e == nil {
 		_ = json.Unmarshal(sb, &ws)
 	} else {
-		return "", string(b), fmt.Errorf("replay produced no result file: %v\n%s", err, tail(string(b), 40))
+		txt := string(b)
+		if err != nil && (strings.Contains(txt, "panic:") || strings.Contains(txt, "fatal error:") || strings.Contains(txt, "SIGSEGV")) {
+			return "PROCESS-CRASH", txt, nil
+		}
+		return "", txt, fmt.Errorf("replay produced no result file: %v\n%s", err, tail(txt, 40))
 	}
 	if ws.HarnessErr != "" {
 		return "", string(b), errors.New(ws.HarnessErr)
@@ -734,6 +748,9 @@ func cmdCheck(args []string) int {
 			infra = append(infra, fmt.Sprintf("replay of %s failed: %v", rpath, err))
 			continue
 		}
+		if c.ff.Crash && got == "PROCESS-CRASH" {
+			got = sig
+		}
 		if got != sig {
 			infra = append(infra, fmt.Sprintf("violation %q did not reproduce from %s (replay gave %q)\n%s", sig, rpath, got, tail(outTxt, 20)))
 			continue
@@ -821,8 +838,12 @@ func cmdCheck(args []string) int {
 		"violations": nViol,
 	}
 	eb, _ := json.MarshalIndent(ev, "", " ")
-	_ = os.MkdirAll(filepath.Join(verifDir, "evidence"), 0o755)
-	if err := os.WriteFile(filepath.Join(verifDir, "evidence", prop+".json"), eb, 0o644); err != nil {
+	evDir := filepath.Join(verifDir, "evidence")
+	if d := os.Getenv("VERIF_EVIDENCE_DIR"); d != "" {
+		evDir = d // sensitivity runs against deliberately broken trees must not overwrite the evidence
+	}
+	_ = os.MkdirAll(evDir, 0o755)
+	if err := os.WriteFile(filepath.Join(evDir, prop+".json"), eb, 0o644); err != nil {
 		fmt.Fprintf(os.Stderr, "INFRASTRUCTURE: cannot write evidence: %v\n", err)
 		if exit == 0 {
 			exit = 2
@@ -902,6 +923,13 @@ func cmdReplay(args []string) int {
 	for _, l := range strings.Split(out, "\n") {
 		if strings.HasPrefix(l, "REPLAY-") {
 			fmt.Println(l)
+		}
+	}
+	if got == "PROCESS-CRASH" {
+		fmt.Printf("REPLAY-RESULT the process crashed while executing the plan\n%s\n", tail(out, 25))
+		got = ff.Signature
+		if !ff.Crash {
+			got = ff.Property + "/process-survives/-/process-crash"
 		}
 	}
 	if got == "" {
